@@ -29,7 +29,8 @@ inductive Cmd (S : Type) where
   | grad (v : String) | takegrad (w v : String) | cleargrad (v : String) | setgrad (v w : String)
   | show (v : String) | idx (v : String) (i : List Nat) | idxflat (v : String) (i : Nat)
   | eq (a b : String) | same (a b : String) | samegrad (a b : String)
-  | lin (c : String) (al : S) (a : String) (be : S) (b : String) | probe (v : String) | flags (v : String) | probekid (v : String) (i : Nat) | own (v : String)
+  | lin (c : String) (al : S) (a : String) (be : S) (b : String)
+  | sumgrad (c : String) (parts : List String) | probe (v : String) | flags (v : String) | probekid (v : String) (i : Nat) | own (v : String)
   | log
   | gdupdate (lr : S) (vs : List String)
   | dense (l : String) (inp out : Nat) (act : Act) (w b : List S)
@@ -214,6 +215,16 @@ def exec (σ : State S) (c : Cmd S) : R (State S × Out S) :=
         gc.beq ⟨ga.dims, List.zipWith (fun x y => al * x + be * y) ga.vals gb.vals⟩
       | none, none, none => true
       | _, _, _ => false
+    pure (σ, .bool r)
+  | .sumgrad c parts => do
+    let hc ← σ.get c
+    let hs ← mapR σ.get parts
+    let gs := hs.filterMap (fun h => σ.grad.getD h.node none)
+    let r := match σ.grad.getD hc.node none, gs with
+      | none, [] => true
+      | some g, g0 :: rest =>
+        g.beq (rest.foldl (fun acc t => ⟨acc.dims, List.zipWith (· + ·) acc.vals t.vals⟩) g0)
+      | _, _ => false
     pure (σ, .bool r)
   | .probe v => do
     let h ← σ.get v
